@@ -223,17 +223,26 @@ def flux_bindown(ix, R):
         raise AnalysisError('expected two searchsorted calls in the bin loop')
     omax = ss[0].args[0]
     omin1 = ss[1].args[0]
+    # the second search runs on the lower edges without their first entry: find the array A with A[1:] == operand
+    # (slices distribute over the edge arithmetic, so the operand need not be a literal subscript)
+    omin = None
+    sl_lo = sl_hi = None
     oa = atom_of(fl, omin1)
-    if oa is None or oa.head != 'idx' or not isinstance(oa.args[1], Slice):
-        raise AnalysisError('second searchsorted operand is not a [1:] slice')
-    omin = oa.args[0]
+    if oa is not None and oa.head == 'idx' and isinstance(oa.args[1], Slice):
+        omin, sl_lo, sl_hi = oa.args[0], oa.args[1].lo, oa.args[1].hi
+    else:
+        for e_ in fl.of('assign'):
+            if isinstance(e_.value, RF) and not e_.loops and tab.equal(spec(fl, 'X[1:]', {'X': e_.value}), omin1):
+                omin, sl_lo, sl_hi = e_.value, tab.const(1), None
+    if omin is None:
+        raise AnalysisError('second searchsorted operand is not a [1:] slice of an array computed before the loop')
     b.update(omin=omin, omax=omax, s=win.lo, e1=win.hi)
     # 3b sorted operand precondition + edges
     width = (omax - omin)
     okedges = tab.equal(omax + omin, gs * 2) and not width.is_zero()
     R.check('3b.edges', 'DOM', site,
             'native bin edges are (sorted grid -/+ width/2) and both searchsorted operands derive from them',
-            okedges and oa.args[1].lo is not None and oa.args[1].lo.const() == 1 and oa.args[1].hi is None,
+            okedges and sl_lo is not None and sl_lo.const() == 1 and sl_hi is None,
             key='edges %s / %s' % (fmt(fl, omin), fmt(fl, omax)),
             detail='native edges are %s and %s' % (fmt(fl, omin), fmt(fl, omax)), loc=f.loc(ss[0].node))
     wsel = "_guard(hasattr(w, '__len__'), w[p], w)"
